@@ -222,7 +222,7 @@ static void perturb(Rng & rng, Tables & t) {
         const size_t s = rng.below(t.S), a = rng.below(t.A);
         auto & row = onT ? t.T[s][a] : t.Ob[s][a];
         size_t big = 0; for (size_t j = 1; j < row.size(); ++j) if (row[j] > row[big]) big = j;
-        const int kind = (int)rng.below(6);
+        const int kind = (int)rng.below(7);
         static const int up[] = {21, 20, 19, 18};
         std::printf("#stat perturb_kind_%d 1\n", kind);
         if (kind == 0) row[big] += std::ldexp(1.0, -up[rng.below(4)]);
@@ -241,6 +241,12 @@ static void perturb(Rng & rng, Tables & t) {
         } else if (kind == 4 && row.size() > 1) {
             const size_t j = (big + 1 + rng.below(row.size() - 1)) % row.size();
             row[big] += row[j] - 0x1p-20; row[j] = 0x1p-20;
+        }
+        else if (kind == 6 && row.size() > 1) {
+            // an entry just ABOVE the storage threshold (2^-19 = 1.9e-6 > 1e-6: every container must keep it) in a row summing to
+            // 1 + 2^-20: a container that dropped it would still see a row within the tolerance (1 + 2^-20 - 2^-19 = 1 - 2^-20)
+            const size_t j = (big + 1 + rng.below(row.size() - 1)) % row.size();
+            row[big] += row[j] - 0x1p-19 + 0x1p-20; row[j] = 0x1p-19;
         }
         // kind 5: leave the row alone
     }
@@ -638,6 +644,26 @@ static void runFixed(long idx) {
         { Tables t = base(); t.T[0][0][0] += 0x1p-19; emitAccept<DenseM>("dense", t); emitAccept<SparseM>("sparse", t); emitAcceptSetters(t, 2, false); emitAcceptConv(t); }
         { Tables t = base(); t.Ob[1][0][0] = -0x1p-21; t.Ob[1][0][1] = 1.0 + 0x1p-21; emitAccept<DenseM>("dense", t); emitAccept<SparseM>("sparse", t); emitAcceptSetters(t, 2, false); emitAcceptConv(t); }
         { Tables t = base(); t.T[1][0][0] = -0.25; t.T[1][0][1] = 0.5; emitAccept<DenseM>("dense", t); emitAccept<SparseM>("sparse", t); emitAcceptSetters(t, 2, false); emitAcceptConv(t); }
+        {   // an entry just above the storage threshold, compensated so that dropping it would go unnoticed by a row-sum test
+            Tables t = base();
+            t.Ob[0][0][0] = 0x1p-19; t.Ob[0][0][1] = 1.0 - 0x1p-19 + 0x1p-20;
+            t.T[2][0][1] = 0x1p-19; t.T[2][0][2] = 0.875 - 0x1p-19 + 0x1p-20;
+            emitAcceptConv(t);
+            if (emitAccept<DenseM>("dense", t) && emitAccept<SparseM>("sparse", t)) {
+                Models M(t); emitTabs(M);
+                AI::Vector b(3); b << 0.125, 0.625, 0.25; emitUpd(M, b, 0, false); emitUpd(M, b, 0, false, true);
+            }
+        }
+        {   // OBSERVATION (model validity, C06 — not judged here): isProbability(const SparseMatrix3D &) has no sign test, so the
+            // Eigen-matrix setter of a SparseModel takes an observation "probability" of -2^-22 (Lean: isProbRowSp_accepts_negative)
+            SparseM sm(2, 2, 1, 0.5);
+            AI::SparseMatrix3D ob(1, AI::SparseMatrix2D(2, 2));
+            ob[0].insert(0, 0) = -0x1p-22; ob[0].insert(0, 1) = 1.0 + 0x1p-22; ob[0].insert(1, 0) = 1.0;
+            bool acc = true; try { sm.setObservationFunction(ob); } catch (const std::invalid_argument &) { acc = false; }
+            double neg = 0.0;
+            if (acc) { AI::Vector b(2); b << 0.5, 0.5; neg = PO::updateBelief(sm, b, 0, 0)[0]; }
+            std::printf("#stat observed_sparse_matrix_setter_accepts_negative_entry %d\n#stat observed_negative_posterior_entry %d\n", acc ? 1 : 0, neg < 0.0 ? 1 : 0);
+        }
         for (int cnt : {2, 3, 7}) {
             Tables t = defaultTables(8, 1, 2);
             for (int j = 1; j <= cnt; ++j) { t.T[0][0][j] = 0x1p-21; t.T[0][0][0] -= 0x1p-21; }
